@@ -85,6 +85,25 @@ def later_phase_of(ph, k):
     return later[k % len(later)]
 
 
+# instructions (not definitions) that refer to every symbol of the prelude in a way that is valid: with them the
+# defective reference of the carrier is not the first reference to its symbol
+PRE_USE_SETUP = [
+    'env C03_PRE_USE = "@[S]@ @[N]@ @[L]@ @[P]@ @[PD]@ @[PH]@"',
+    'file -rel-act pre_use_1.txt = @[TS]@',
+    'file -rel-act pre_use_2.txt = "a" -transformed-by ( TT | filter ( contents TM && LM && line-num IM ) )',
+    'dir -rel-act pre_use_d = @[FSRC]@',
+    'run @ PGM',
+]
+PRE_USE_ASSERT = [
+    'exists -rel-act d : type dir && ( dir-contents ( FSM || matches FC ) || constant true )',
+    'exists -rel-act f.txt : FM',
+]
+
+
+PRE_USE_REFERENCES = {n: 1 for n in ['S', 'N', 'L', 'P', 'PD', 'PH', 'TS', 'TT', 'TM', 'LM', 'IM', 'FSRC', 'PGM', 'FSM',
+                                     'FC', 'FM']}
+
+
 def build_files(case, defect=None):
     """-> {'files': {rel: text}, 'suite': name of the suite file or None, 'later_textually_earlier': bool}"""
     car = case['carrier']
@@ -106,6 +125,8 @@ def build_files(case, defect=None):
         if later_ph is None and cph not in IPHASES:
             later_ph = 'cleanup'
     prelude = list(CG.SANDBOX_PRELUDE) + [d for _, d in CG.SYMBOL_DEFS] + CG.extra_def_lines(needs)
+    if case.get('pre_use'):
+        prelude += PRE_USE_SETUP
 
     ph_lines = {p: [] for p in EXEC_ORDER}
     where = car['where']
@@ -161,6 +182,8 @@ def build_files(case, defect=None):
         ph_lines['act'] = ['$ echo act >> {MARKERS}']
     if cph == 'conf':
         ph_lines['conf'] += placed
+    if case.get('pre_use'):
+        ph_lines['assert'][0:0] = PRE_USE_ASSERT
     if later_ph is not None:
         ph_lines[later_ph].insert(0, later_line)
 
@@ -221,10 +244,10 @@ def argv_for(mode, built):
         return {}, ['symbol', 'suite', built['suite']]
     if mode == 'suite':
         if built['suite']:
+            # the listing comes first: the carrier stays the last thing in the file (a "missing argument" defect
+            # is only sound at the very end of a file)
             text = built['files'][built['suite']]
-            if not text.endswith('\n'):
-                text += '\n'
-            return {built['suite']: text + '[cases]\nt.case\n'}, ['suite', built['suite']]
+            return {built['suite']: '[cases]\nt.case\n' + text}, ['suite', built['suite']]
         return {'s.suite': '[cases]\nt.case\n'}, ['suite', 's.suite']
     raise ValueError(mode)
 
@@ -286,7 +309,7 @@ def generated_cases(draw, tier='quick'):
                         'inc_marker': draw(st.booleans()), 'suite_explicit': draw(st.booleans()),
                         'inc_depth': draw(st.sampled_from([1, 1, 2])),
                         'inc_from': draw(st.sampled_from([None, None] + IPHASES)) if cph in IPHASES else None},
-            'at_eof': at_eof, 'symbol_check': draw(_ONE_IN_4)}
+            'at_eof': at_eof, 'symbol_check': draw(_ONE_IN_4), 'pre_use': draw(st.booleans())}
     if at_eof and where == 'main' and cph in IPHASES:
         case['carrier']['pos'] = len(effects[cph])
     if where == 'inc' and case['carrier']['inc_from'] not in (None, cph):
@@ -366,7 +389,8 @@ def enumerated_cases(tier):
                             'elems': elems, 'inc_marker': bool(k % 2), 'suite_explicit': bool(k % 2),
                             'inc_depth': 1 + (k // 7) % 2,
                             'inc_from': None},
-                'at_eof': k % 2 == 0, 'symbol_check': k % 5 == 0 or cph == 'cleanup' or elems[0]['name'] == 'def'}
+                'at_eof': k % 2 == 0, 'symbol_check': k % 5 == 0 or cph == 'cleanup' or elems[0]['name'] == 'def',
+                'pre_use': k % 3 == 1}
         if case['at_eof'] and where == 'main' and cph in IPHASES:
             case['carrier']['pos'] = n
         eof = is_at_eof(case)
